@@ -53,6 +53,9 @@ pub struct E2Lenses {
     pub orphan: bool,
     pub stats: bool,
     pub ondisk: bool,
+    /// with `powerloss`: enumerate the power-loss images but leave the recovery verdict to C09 (C06 only
+    /// looks at the files under cas/ in those images)
+    pub pl_nojudge: bool,
 }
 
 pub type Model<K> = BTreeMap<K, Bytes>;
@@ -603,11 +606,12 @@ pub fn run_e2<K: HKey>(case: &E2Case, lenses: E2Lenses) -> R<CaseMeta> {
                     epoch_seen = tmp_seen;
                 }
                 let mut resolved: Option<Model<K>> = None;
-                if lenses.recover || lenses.powerloss || lenses.orphan || lenses.stats {
+                let judge = lenses.recover || (lenses.powerloss && !lenses.pl_nojudge);
+                if judge || lenses.orphan || lenses.stats {
                     let rec = match recover::<K>(&img, n) {
                         Ok(r) => r,
                         Err(f) => {
-                            if lenses.recover || lenses.powerloss {
+                            if judge {
                                 return Err(crate::engine::Fail::new(f.sig, format!("{lctx}: {}", f.detail)));
                             }
                             // other lenses need a recovered store; C03 reports open failures
@@ -615,7 +619,7 @@ pub fn run_e2<K: HKey>(case: &E2Case, lenses: E2Lenses) -> R<CaseMeta> {
                             continue;
                         }
                     };
-                    if lenses.recover || lenses.powerloss {
+                    if judge {
                         for (a, inf) in &st.pairs {
                             let al = allowed_for(*a, *inf);
                             let idx = judge_recovered(&rec, &al, &format!("{lctx} acked={a} inflight={inf:?}"))?;
